@@ -61,7 +61,7 @@ var spinning bool
 
 // quiesce waits until every other goroutine is blocked or gone.
 func quiesce() (inLockWrite bool) {
-	deadline := time.Now().Add(1500 * time.Millisecond)
+	deadline := time.Now().Add(4 * time.Second)
 	pause := 20 * time.Microsecond
 	for {
 		runtime.Gosched()
